@@ -395,7 +395,11 @@ POOL = [("C:0=6,H:0=12,O:0=6", "n:5", 0), ("C:0=600,H:0=1200,O:0=600", "guess", 
         # cached constants (generator vs stateless and vs the model, which shares the recorded defect D5)
         ("C:0=10,H:0=12,N:0=2,O:0=8,Zn:0=1", "n:2", 0), ("C:0=10,H:0=12,N:0=2,O:0=8,Zn:0=1", "n:12", 1),
         ("Ca:0=2,C:0=1", "n:3", 0), ("Ca:0=2,C:0=1", "n:14", 0), ("Se:0=2", "n:2", 1), ("Se:0=2,H:0=2", "n:15", 0),
-        ("Sn:0=1,C:0=4", "n:20", 1), ("Sn:0=1", "n:2", 0)]
+        ("Sn:0=1,C:0=4", "n:20", 1), ("Sn:0=1", "n:2", 0),
+        # calls that FAIL or do nothing in the middle of a history: a negative count (outside every property's domain: the
+        # real code panics after checking constants out of the cache), a zero count, the empty composition
+        ("C:0=-3,H:0=2", "n:4", 0), ("H:0=0,C:0=2", "n:3", 0), ("-", "guess", 1)]
+FAILING = 3
 
 
 def call_str(c):
@@ -414,7 +418,7 @@ def run_c08(r: Run):
     rng = random.Random(r.seed + 8)
     thorough = r.tier == "thorough"
     depth = 4 if thorough else 3
-    pool = POOL if thorough else POOL[:5] + POOL[12:17]
+    pool = POOL if thorough else POOL[:5] + POOL[12:17] + POOL[-FAILING:]
     hists = []
     for L in range(1, depth + 1):
         for h in itertools.product(range(len(pool)), repeat=L):
@@ -447,6 +451,8 @@ def run_c08(r: Run):
         if hi in model and corr_ok:
             mouts = model[hi].split("|")
             for k, (o, mo) in enumerate(zip(outs, mouts)):
+                if "=-" in h[k][0]:
+                    continue   # negative counts: unspecified (the model computes, the code panics); the calls AFTER it count
                 if not same_peaks(o.split("~")[0], mo.split("~")[0], 1e-7):
                     corr_ok = False
                     r.violation("corr-history", {"last_call": h[k][0]}, f"generator result for call {k} ({h[k][0]}) differs from the model's",
